@@ -497,11 +497,11 @@ impl Sim for StripeSim {
     fn plan(_prop: &str, tier: Tier) -> Vec<Phase> {
         match tier {
             Tier::Quick => vec![
-                Phase { name: "histories", count: 100_000, exhaustive: false },
+                Phase { name: "histories", count: 1_000_000, exhaustive: false },
                 Phase { name: "every-length", count: 3 * 1100, exhaustive: true },
             ],
             Tier::Thorough => vec![
-                Phase { name: "histories", count: 3_000_000, exhaustive: false },
+                Phase { name: "histories", count: 20_000_000, exhaustive: false },
                 Phase { name: "every-length", count: 3 * (EVERY_L_MAX + 1) * 2, exhaustive: true },
             ],
         }
